@@ -327,3 +327,64 @@ theorem agree_run (cfg : Cfg) (ops : List Op) (s s' : St) (rops : List Op) (hA :
     · cases h
 
 end XdsVerif.Seq
+
+namespace XdsVerif.Seq
+open XdsVerif.Spec.Seq
+
+/-- specification level: whatever the fold serves for `(rt, n)` is subscribed at the end of the history -/
+theorem served_subscribed (cfg : Cfg) (rops : List Op) (rt : RType) (n : Name) (v : Val)
+    (h : served cfg rops rt n = some v) : subscribedAt rops rt n = true := by
+  induction rops with
+  | nil => simp [served] at h
+  | cons op rest ih =>
+    cases op with
+    | push r now =>
+      simp only [served] at h
+      simp only [subscribedAt]
+      split at h
+      · rename_i hc
+        cases hcar : carried cfg rest r n with
+        | some w =>
+          unfold carried at hcar
+          split at hcar
+          · rename_i hs; rw [← hc.1]; exact hs
+          · cases hcar
+        | none =>
+          rw [hcar] at h
+          simp only at h
+          split at h
+          · cases h
+          · exact ih h
+      · exact ih h
+    | evict rt' n' now =>
+      simp only [served] at h
+      simp only [subscribedAt]
+      split at h
+      · cases h
+      · rename_i hne; simp only [hne, if_false]; exact ih h
+    | subscribe rt' n' =>
+      simp only [served] at h
+      simp only [subscribedAt]
+      split
+      · rfl
+      · exact ih h
+    | pushUnknown => simp only [served] at h; simp only [subscribedAt]; exact ih h
+    | touch _ _ _ => simp only [served] at h; simp only [subscribedAt]; exact ih h
+    | authFail => simp only [served] at h; simp only [subscribedAt]; exact ih h
+    | reconnectDrain => simp only [served] at h; simp only [subscribedAt]; exact ih h
+    | publish => simp only [served] at h; simp only [subscribedAt]; exact ih h
+    | senderAdopt _ _ => simp only [served] at h; simp only [subscribedAt]; exact ih h
+    | senderSend _ => simp only [served] at h; simp only [subscribedAt]; exact ih h
+
+/-- **what is cached is subscribed**: in every reachable state of the client state machine a cached name is in
+the interest set of its type (so it keeps receiving updates, and an eviction really unsubscribes) -/
+theorem cached_is_subscribed (cfg : Cfg) (ops : List Op) (s : St) (h : run cfg init ops = some s)
+    (rt : RType) (n : Name) (v : Val) (hc : s.cache rt n = some v) :
+    ((s.watched rt).getD []).contains n = true := by
+  have hA := agree_run cfg ops init s [] (agree_init cfg) h
+  simp only [List.append_nil] at hA
+  rw [hA.watchedN rt n]
+  apply served_subscribed cfg ops.reverse rt n v
+  rw [← hA.cache rt n]; exact hc
+
+end XdsVerif.Seq
